@@ -223,6 +223,9 @@ func (f *fakeServer) References(_ context.Context, p *protocol.ReferenceParams) 
 
 func (f *fakeServer) Declaration(_ context.Context, p *protocol.DeclarationParams) (*protocol.Or_textDocument_declaration, error) {
 	f.pos("declaration", p.TextDocumentPositionParams)
+	if f.isNil {
+		return nil, nil
+	}
 	links := []protocol.DeclarationLink{}
 	for _, l := range f.answer {
 		links = append(links, protocol.DeclarationLink{TargetURI: protocol.DocumentURI(l.URI), TargetRange: rng(l), TargetSelectionRange: rng(l)})
